@@ -315,7 +315,7 @@ func checkFailingEncode(s *kit.Summary, cd codec, rs []vegeta.Result) (sawError 
 // server; while it is still running the file must already hold the results of exchanges that finished long
 // ago (every result is encoded as it arrives, straight to the file), and after the process was killed the
 // file must decode to a clean prefix. Only lower bounds are asserted: at least one complete record in the
-// file one second after the 10th response went out.
+// file three seconds after the 10th response went out.
 func runAttackCommand(c *run.Ctx, s *kit.Summary) {
 	if _, err := os.Stat(c.Vegeta); err != nil {
 		s.Skipped["attack-command: no vegeta binary"]++
@@ -353,7 +353,7 @@ func runAttackCommand(c *run.Ctx, s *kit.Summary) {
 		s.Skipped["attack-command: local server not reached"]++
 		return
 	}
-	time.Sleep(time.Second)
+	time.Sleep(3 * time.Second) // generous: the attack process only has to be scheduled once in this time
 	while, _ := os.ReadFile(out)
 	cmd.Process.Kill() // the writer is killed
 	cmd.Wait()
@@ -368,10 +368,10 @@ func runAttackCommand(c *run.Ctx, s *kit.Summary) {
 	got, term := decodePrefix(gobc, while)
 	s.Case("attack-command", true)
 	s.Count("attack-command:runs")
-	in := map[string]interface{}{"command": "vegeta attack -rate=25/s -duration=20s -output FILE (killed after ≥10 responses + 1 s)",
-		"responses_served_one_second_before_reading": n0, "file_bytes_while_running": len(while), "file_bytes_after_kill": len(after)}
+	in := map[string]interface{}{"command": "vegeta attack -rate=25/s -duration=20s -output FILE (killed after ≥10 responses + 3 s)",
+		"responses_served_three_seconds_before_reading": n0, "file_bytes_while_running": len(while), "file_bytes_after_kill": len(after)}
 	if len(got) < 1 || term == "panic" {
-		s.Violate(kit.Violation{Kind: "attack_output_held_back", What: "the attack command does not write each result as it arrives: one second after the 10th response the output file holds no complete record",
+		s.Violate(kit.Violation{Kind: "attack_output_held_back", What: "the attack command does not write each result as it arrives: three seconds after the 10th response the output file holds no complete record",
 			Input: in, Expected: "≥ 1 complete record in the file while the attack is running", Observed: fmt.Sprintf("%d records then %s", len(got), term),
 			Key: map[string]interface{}{"codec": "gob"}})
 		return
